@@ -65,6 +65,9 @@ pub fn read_graphml_string(string: &str, specs: GraphSpecs) -> Result<Graph<Stri
         crate::verif_hooks::tick("graphml_event");
         match reader.read_event_into(&mut buf) {
             Ok(Event::Empty(ref e)) => match e.name().as_ref() {
+                b"graph" => {
+                    directed = get_edge_default(e)?;
+                }
                 b"node" => {
                     let result = add_node(&mut nodes, e);
                     if let Err(value) = result {
